@@ -4,6 +4,7 @@ HOOKS = dict(guard='--cfg rbpf_verif', enable='RUSTFLAGS="--cfg rbpf_verif" (set
 ENGINES = [
  dict(name='mirsym', path='engine/mirsym.py', serves_properties=['C01', 'C02', 'C05', 'C06'], kind_free_text='symbolic executor for rustc MIR text -> z3 (bit-vector + array theory)'),
  dict(name='x86sym', path='engine/x86sym.py', serves_properties=['C03'], kind_free_text='symbolic executor for the x86-64 subset emitted by src/jit.rs'),
+ dict(name='kani', path='kani/ + engine/kani_run.py', serves_properties=['C17', 'C19'], kind_free_text='Kani 0.68 proof harness crate (CBMC 6.11)'),
  dict(name='driver', path='driver/', serves_properties=['C01', 'C02', 'C05', 'C06'], kind_free_text='native replay driver (never a deciding step)'),
 ]
 NOTES = 'Solver-based checking of the real code: see DESIGN.md. Exit codes: 0 held, 1 reproduced violation, 2 inconclusive/machinery.'
@@ -40,5 +41,15 @@ CHECKS = {
         'Whole-program families (jump fix-ups over variable-length encodings, loops, jumps beyond instruction 65535, divide-by-zero continuations) compare RAX and buffer bytes at the final ret with the MIR interpreter run on the same program. '
         'Counterexamples are replayed natively (interpreter vs JIT).',
    note='Trusted: rustc MIR, the x86-64 semantics table of x86sym (only encodings the JIT emits), z3. Assumed: eBPF-visible regions are away from the native stack scratch area; in-bounds accesses (premise). Program shapes are enumerated families; operand values are unbounded.'),
+ 'C17': dict(level='proof', engine='kani+mirsym', design_ref='DESIGN.md 5/C17',
+   technique='Kani/CBMC proof harnesses over the real encode/decode/builder functions (all field values, unwinding assertions, cover witnesses) + mirsym/z3 obligation for get_insn at an unbounded symbolic index',
+   text='Bounded proofs by CBMC: get_insn/to_array/to_vec round trips for all 2^64 slot values and all field values, at every index of a 4-slot (thorough: 8-slot) program, to_insn_vec element-wise; every insn_builder constructor family '
+        'with symbolic registers/offset/immediate emits exactly Insn{opc: the ebpf.rs constant}.to_array(). z3 over the MIR of get_insn: fields = encoded bytes and panic iff (idx+1)*8 > len for symbolic idx and length (no bound).',
+   note='Trusted: Kani 0.68/CBMC 6.11 (cadical), rustc MIR, z3. Bounds: unwind values and slot counts per harness (evidence.kani). Builder == assembler goes through the mnemonic table checked in C13.'),
+ 'C19': dict(level='proof', engine='kani+mirsym', design_ref='DESIGN.md 5/C19',
+   technique='Kani/CBMC harnesses for gather_bytes/memfrob/strcmp; mirsym + z3 (bit-vector, floating-point theory) over the MIR of helpers::rand and helpers::sqrti',
+   text='gather_bytes for all five u64; memfrob on a 10-byte (thorough 24) buffer with symbolic start/len: exactly the addressed bytes XOR 0x2a, involution; strcmp on two NUL-terminated buffers and null pointers; '
+        'rand: for all min < max and every generator output the result is in [min,max] and no path panics (dev and release profiles); sqrti: equals trunc(fp.sqrt(x as f64)) for all 64-bit x, exact integer root for x < 2^16 (thorough 2^20).',
+   note='bpf_trace_printf (stdout, f64::log) is not decided: no SMT counterpart; sqrti exact-root claim only below the stated bound; rand generator is an environment stub. Trusted: Kani/CBMC, z3 FP theory, rustc MIR.'),
 }
 NOT_APPLICABLE = {}
